@@ -971,13 +971,17 @@ impl PipeEngine {
                 Err(e) => ctx.violation("C01", "to_string_failed", e.to_string()),
             }
         }
-        if !pretty {
+        {
             let wp = ctx.with_tape(|t| WritePlan::draw(t, faults));
             let fail_planned = wp.fail_at;
             let mut w = SimWriter::new(wp.clone());
-            let r = guarded(|| match mode {
-                Mode::Json => json::to_writer(&mut w, v).map_err(|e| e.to_string()),
-                Mode::Smile => smile::to_writer(&mut w, v).map_err(|e| e.to_string()),
+            let r = guarded(|| match (mode, pretty) {
+                (Mode::Json, false) => json::to_writer(&mut w, v).map_err(|e| e.to_string()),
+                (Mode::Json, true) => {
+                    let mut s = json::Serializer::pretty(&mut w);
+                    v.serialize(&mut s).map_err(|e| e.to_string())
+                }
+                (Mode::Smile, _) => smile::to_writer(&mut w, v).map_err(|e| e.to_string()),
             });
             if w.short > 0 {
                 ctx.count_n("fault.short_write_fired", w.short as u64);
